@@ -42,7 +42,7 @@ WIDTH = {1: 1, 2: 1, 3: 2, 4: 4, 5: 8}
 
 def floors(tier):
     return {"key-by-name": 1200, "key-by-id": 1200, "list": 300, "parse-set": 300, "parse-get": 300,
-            "lookup": 1200, "limit": 6, "unknown-key": 100, "widths>=2": 200}
+            "lookup": 1200, "limit": 6, "unknown-key": 100, "widths>=2": 200, "unknown-sibling": 3000}
 
 
 def plan(tier, seed):
@@ -129,6 +129,18 @@ def header_expect(mode, defname, payload4, bf=1):
     return G.expect(nodes, bf)
 
 
+def width_problems(res):
+    """Table audit: the declared type of a key must have the storage width its
+    key ID's size code prescribes."""
+    out = []
+    for kid, typ in res:
+        w = WIDTH.get((kid >> 28) & 7)
+        if w is None or not codec.is_type(typ) or codec.tsize(typ) != w:
+            out.append((f"{PROP}|table|width-mismatch",
+                        f"key {hex(kid)} is declared {typ} but its size code prescribes {w} byte(s)"))
+    return out
+
+
 def same(a, b):
     if isinstance(a, float) or isinstance(b, float):
         return isinstance(a, float) and isinstance(b, float) and codec.float_same(a, b)
@@ -161,6 +173,10 @@ def check(case) -> core.Out:
         helper, a, b, items = case["helper"], case["a"], case["b"], case["items"]
         key = f"{PROP}|config_{helper}|"
         res = [resolve(it) for it in items]
+        wp = width_problems(res)
+        if wp:
+            out.viol.extend(wp[:1])
+            return out
         triples = [(kid, typ, it[1] if len(it) > 1 else None) for (kid, typ), it in zip(res, items)]
         want = ref_payload(helper, a, b, triples)
         widths = {WIDTH[(kid >> 28) & 7] for kid, _t, _v in triples}
@@ -194,6 +210,10 @@ def check(case) -> core.Out:
         key = f"{PROP}|parse-{which}|"
         out.classes = [f"parse-{which}"]
         res = [resolve(it) for it in items]
+        wp = width_problems(res)
+        if wp:
+            out.viol.extend(wp[:1])
+            return out
         payload = hdr
         for (kid, typ), it in zip(res, items):
             payload += kid.to_bytes(4, "little") + enc_value(kid, typ, it[1])
@@ -303,6 +323,19 @@ def run_shard(spec, ctx, acc):
             kid, typ = db()[name]
             case = {"kind": "lookup", "name": name}
             core.handle(acc, check(case), case, known)
+            # undocumented *siblings*: same group and item, other size code
+            if i % 3 == spec["part"] % 3 or tier != "quick":
+                for code in (1, 2, 3, 4, 5):
+                    sib = (kid & 0x0FFFFFFF) | (code << 28)
+                    if names_of(sib):
+                        continue
+                    val = bytes(((sib >> 3) + j) & 0xFF for j in range(WIDTH[code]))
+                    for c2 in ({"kind": "build", "helper": "set", "a": 1, "b": 0, "items": [[sib, val]]},
+                               {"kind": "parse", "mode": 1, "hdr": bytes([0, 1, 0, 0]), "items": [[sib, val], [kid, codec.value_of(typ, G.zero_raw(typ))]]},
+                               {"kind": "parse", "mode": 0, "hdr": bytes([1, 0, 0, 0]), "items": [[sib, val]]}):
+                        o = check(c2)
+                        o.classes = list(o.classes) + ["unknown-sibling"]
+                        core.handle(acc, o, c2, known)
 
             def mk(t3, name=name, kid=kid):
                 val, a, b = t3
